@@ -189,10 +189,12 @@ def restart_local(fs, name_pre=None, desc_pre=None):
     return fs2, text, None
 
 
-def load_text(text, name="reloaded", name_pre=None, desc_pre=None):
+def load_text(text, name="reloaded", name_pre=None, desc_pre=None, parser=None, markers_by_attribute=False):
+    """parser: a Parser object to reuse (it may have parsed other things before); markers_by_attribute: the markers are
+    assigned to the public attributes of a set constructed with the defaults, instead of being passed to the constructor."""
     from sievelib.factory import FiltersSet
     from sievelib.parser import Parser
-    p = Parser()
+    p = parser if parser is not None else Parser()
     try:
         ok = p.parse(text)
     except Exception as e:
@@ -204,7 +206,12 @@ def load_text(text, name="reloaded", name_pre=None, desc_pre=None):
         kw["filter_name_pretext"] = name_pre
     if desc_pre is not None:
         kw["filter_desc_pretext"] = desc_pre
-    fs2 = FiltersSet(name, **kw)
+    if markers_by_attribute:
+        fs2 = FiltersSet(name)
+        for k, v in kw.items():
+            setattr(fs2, k, v)
+    else:
+        fs2 = FiltersSet(name, **kw)
     fs2.from_parser_result(p)
     return fs2, None
 
